@@ -37,6 +37,7 @@ def gen(rng):
                                p_have=1.0 if complete else 0.35, id_hi=400, max_stmts=3,
                                min_missing=0 if complete else rng.choice([0, 1, 1, 2]))
     knobs = {"threads": rng.randrange(1, 5), "config_arg": rng.choice(["rel", "abs"])}
+    knobs = scen.env_knobs(rng, knobs)
     base = {"seed": rng.getrandbits(48) | 1, "perm": True, "faults": []}
     return wm, knobs, base, check
 
